@@ -1,4 +1,5 @@
 import Ivy.L1.ProofsC02
+import Ivy.L1.TablesAgree
 /-!
 # C02 — property theorem over the L1 loop machine
 
@@ -16,5 +17,28 @@ theorem monitor_accepts (m : Method) (ntimers : Nat) (timerfdAvail pwait2 : Bool
     (evs : List Ev) (s' : St) (h : Exec (St.init m ntimers timerfdAvail pwait2) evs s') :
     Ivy.Mon.C02.verdict evs = none :=
   Ivy.L1.ProofsC02.monitor_accepts m ntimers timerfdAvail pwait2 evs s' h
+
+/-- T-gen (finite tables, re-checked against /repo's current code on every run): `recompute_wanted_flags` is
+`wantedOf` on all 16 inputs -/
+theorem wanted_table_agrees :
+    (∀ r ∈ Ivy.Generated.Tables.wanted,
+      Ivy.L1.TablesAgree.Bands.code (wantedOf { registered := r.1, hin := r.2.1, hout := r.2.2.1, herr := r.2.2.2.1 }) = r.2.2.2.2) ∧
+    (∀ o : FdObj, (o.registered, o.hin, o.hout, o.herr, Ivy.L1.TablesAgree.Bands.code (wantedOf o)) ∈ Ivy.Generated.Tables.wanted) :=
+  Ivy.L1.TablesAgree.wanted_table_agrees
+
+/-- T-gen: iv_fd_epoll.c `bits_to_poll_mask` is `epollMask` on all 8 band sets (and sets no other bit) -/
+theorem epoll_mask_table_agrees :
+    (∀ r ∈ Ivy.Generated.Tables.epollMask, ∀ b ∈ Ivy.L1.TablesAgree.allBands, Ivy.L1.TablesAgree.Bands.code b = r.1 →
+      (epollMask b).i = r.2.1 ∧ (epollMask b).o = r.2.2.1 ∧ (epollMask b).e = false ∧ r.2.2.2 = 0) ∧
+    (∀ b : Bands, (Ivy.L1.TablesAgree.Bands.code b, (epollMask b).i, (epollMask b).o, 0) ∈ Ivy.Generated.Tables.epollMask) :=
+  Ivy.L1.TablesAgree.epoll_mask_table_agrees
+
+/-- T-gen: iv_fd_poll.c `bits_to_poll_mask` is `pollMaskOf` (what the replay driver renders) on all 8 band sets -/
+theorem poll_mask_table_agrees :
+    (∀ r ∈ Ivy.Generated.Tables.pollMask, ∀ b ∈ Ivy.L1.TablesAgree.allBands, Ivy.L1.TablesAgree.Bands.code b = r.1 →
+      Ivy.L1.TablesAgree.pollMaskOf b = (r.2.1, r.2.2.1, r.2.2.2.1) ∧ r.2.2.2.2 = 0) ∧
+    (∀ b : Bands, (Ivy.L1.TablesAgree.Bands.code b, (Ivy.L1.TablesAgree.pollMaskOf b).1, (Ivy.L1.TablesAgree.pollMaskOf b).2.1,
+      (Ivy.L1.TablesAgree.pollMaskOf b).2.2, 0) ∈ Ivy.Generated.Tables.pollMask) :=
+  Ivy.L1.TablesAgree.poll_mask_table_agrees
 
 end Ivy.Props.C02
